@@ -17,7 +17,7 @@ class Prog:
         self.segments = []            # dicts: type,flags,align,vaddr,paddr,members (user-section numbers, 0-based), nested_in
 
 
-def gen_prog(rng, cfg=None, nsec=None, nseg=None, allow_nested=True, allow_compr_nocreate=False, small=False):
+def gen_prog(rng, cfg=None, nsec=None, nseg=None, allow_nested=True, allow_compr_nocreate=False, small=False, nonalloc_members=False):
     p = Prog()
     p.cfg = cfg or rng.choice(CFGS)
     w = 32 if p.cfg[0] == "32" else 64
@@ -51,7 +51,7 @@ def gen_prog(rng, cfg=None, nsec=None, nseg=None, allow_nested=True, allow_compr
             s["data"] = rbytes(rng, n); s["size"] = n
         p.sections.append(s)
     # ---- segments over runs of allocated, non-empty sections (no-bits only last)
-    free = [i for i, s in enumerate(p.sections) if (s["flags"] & 2) and s["size"] > 0]
+    free = [i for i, s in enumerate(p.sections) if ((s["flags"] & 2) or (nonalloc_members and s["type"] != 8 and i % 3 == 0)) and s["size"] > 0]
     used = set()
     vbase = rng.choice([0x1000, 0x8048000, 0x400000, 0x10000])
     for j in range(nseg):
